@@ -498,7 +498,8 @@ def c11_failing(kind, m):
     """Exact(c): every worker must be handed c (clamped to the length); pulls are blocks of c"""
     f = _case_fields(m)
     ops = f["ops"].split(";")
-    cs = ops[-2] if ops[-1].startswith("N:") else ops[1]
+    import k3 as _k3
+    cs = _k3.settings_of(ops)[3]
     if not cs.startswith("C:") or cs == "C:0":
         return False
     c = int(cs[2:])
@@ -526,7 +527,8 @@ def c11_failing(kind, m):
 def c08_failing(kind, m):
     f = _case_fields(m)
     ops = f["ops"].split(";")
-    nt = int((ops[-1] if ops[-1].startswith("N:") else ops[0])[2:])
+    import k3 as _k3
+    nt = _k3.settings_of(ops)[2]
     try:
         return nt >= 1 and int(m["impl"]) > nt
     except ValueError:
